@@ -682,6 +682,23 @@ func main() {
 				}
 				// the repository literally named "*": not a valid name, but a name like any other to the
 				// policy; only Repositories may use "*" as the catalog's pseudo-name
+				// names that are not in canonical form (no valid repository is spelt like that, but the policy is
+				// asked about the name the caller used, and so is the wrapped registry): rejected while every
+				// other spelling is allowed, and the other way round
+				if m != "Repositories" && m != "Upload" && st%4 == 1 {
+					odd := []string{"a/../c", "c/.", "./c", "c//x", "c/", "../c", "a/./c", "private/../public/x"}[(st/4+mi)%8]
+					for _, rejectOdd := range []bool{true, false} {
+						rejectOdd := rejectOdd
+						w := newWorld(run, sel, func(string, ocifilter.AccessKind) bool { return true })
+						for _, op := range prefix {
+							w.step(op)
+						}
+						w.pol = func(repo string, kind ocifilter.AccessKind) bool { return (repo == odd) != rejectOdd }
+						run.Eval(1)
+						run.Count("non_canonical_name_calls", 1)
+						w.step(coreOp(rng, u, w, m, "a", odd))
+					}
+				}
 				if m != "Repositories" && m != "Upload" && st%4 == 0 {
 					for _, allowStar := range []bool{true, false} {
 						allowStar := allowStar
@@ -740,6 +757,7 @@ func main() {
 	run.FloorCounter("patient_consumer_listings", 40)
 	run.FloorCounter("listing_filtered_out", 10)
 	run.FloorCounter("star_name_calls", 20)
+	run.FloorCounter("non_canonical_name_calls", 100)
 	run.Finish()
 }
 
